@@ -77,6 +77,9 @@ func checkC06(c *Ctx) {
 
 	// the commit order that execution follows (C01.2-C01.5)
 	c.importFrom(checkC01, "C06.8", "C01.2", "C01.3", "C01.4", "C01.5")
+	// the commands executed for a committed hash are those of the block with that hash: a block fetched from peers is
+	// accepted only if it hashes to the requested hash (shared with C12.5 / C13.1)
+	c13SendersFor(c, "C06.9")
 
 	exec := p.Method("server", "ClientIO", "Exec")
 	abort := p.Method("server", "ClientIO", "Abort")
